@@ -6,7 +6,7 @@
 From Coq Require Import String.
 From Coq Require Import ZArith List Bool Lia Arith.
 From Cose Require Import Lib.Base Lib.GoSem Lib.GenTypes Model.GoVal Model.Key Model.MsgLogic Model.Nonce Model.NonceProofs Model.HdrSem
-     Gen.FuncsGen Gen.SlicesGen Model.FuncsXorIV.
+     Gen.FuncsGen Gen.SlicesGen.
 Import ListNotations.
 Open Scope Z_scope.
 
@@ -57,59 +57,6 @@ Theorem gen_prepares_alike :
   cose_Mac0Message_Compute_prepare = cose_Sign1Message_WithSign_prepare /\ cose_MacMessage_Compute_prepare = cose_Sign1Message_WithSign_prepare
   /\ cose_Encrypt0Message_Encrypt_prepare = cose_Sign1Message_WithSign_prepare /\ cose_EncryptMessage_Encrypt_prepare = cose_Sign1Message_WithSign_prepare.
 Proof. repeat split; reflexivity. Qed.
-
-(* ---------------------------------------------------------------- nonce selection *)
-Lemma get_bytes_np (m : cosemap) l : get_bytes m l <> Panic.
-Proof. unfold get_bytes. destruct (lookup m (ilabel l)) as [v|]; [destruct v|]; discriminate. Qed.
-
-Lemma go_len_zero {A} (l : list A) : (go_len l =? 0) = Nat.eqb (length l) 0.
-Proof. unfold go_len. destruct l; cbn [length]; [reflexivity|]. cbn [Nat.eqb]. apply Z.eqb_neq. lia. Qed.
-
-Lemma go_len_leb {A} (l : list A) (n : nat) : (Z.of_nat n <=? go_len l) = Nat.leb n (length l).
-Proof.
-  unfold go_len. destruct (Nat.leb n (length l)) eqn:E.
-  - apply Nat.leb_le in E. apply Z.leb_le. lia.
-  - apply Nat.leb_gt in E. apply Z.leb_gt. lia.
-Qed.
-
-Theorem gen_nonce_dec_enc0 mp mu kalg kkid kkey (n : nat) draw :
-  cose_Encrypt0Message_Decrypt_nonce_dec mp mu kalg kkid kkey (Z.of_nat n) draw = derive_nonce (hmap mu) kkey n.
-Proof.
-  unfold cose_Encrypt0Message_Decrypt_nonce_dec, derive_nonce, oget_bytes.
-  destruct (get_bytes (hmap mu) 5) as [iv| |] eqn:E5; cbn [bind]; [|reflexivity|exfalso; eapply get_bytes_np; exact E5].
-  destruct (get_bytes (hmap mu) 6) as [piv| |] eqn:E6; cbn [bind]; [|reflexivity|exfalso; eapply get_bytes_np; exact E6].
-  rewrite !go_len_pos. destruct (negb (Nat.eqb (length piv) 0)); [|reflexivity].
-  destruct (negb (Nat.eqb (length iv) 0)); [reflexivity|].
-  rewrite go_len_leb. destruct (Nat.leb n (length piv)); [reflexivity|].
-  destruct (get_bytes kkey 5) as [base| |] eqn:Eb; cbn [bind]; [|reflexivity|exfalso; eapply get_bytes_np; exact Eb].
-  rewrite go_len_zero. destruct (Nat.eqb (length base) 0); [reflexivity|].
-  rewrite gen_xor_iv. destruct (xor_iv base piv n); reflexivity.
-Qed.
-
-Theorem gen_nonce_decs_alike : cose_EncryptMessage_Decrypt_nonce_dec = cose_Encrypt0Message_Decrypt_nonce_dec.
-Proof. reflexivity. Qed.
-
-Definition chosen (u key : cosemap) (n : nat) (draw : bytes) : res (bytes * hdr) :=
-  match choose_nonce u key n draw with
-  | Ok (nonce, u') => Ok (nonce, Some u')
-  | Err => Err
-  | Panic => Panic
-  end.
-
-Theorem gen_nonce_enc_enc0 mp u kalg kkid kkey (n : nat) draw :
-  cose_Encrypt0Message_Encrypt_nonce_enc mp (Some u) kalg kkid kkey (Z.of_nat n) draw = chosen u kkey n draw.
-Proof.
-  unfold chosen, choose_nonce. change (derive_nonce u kkey n) with (derive_nonce (hmap (Some u)) kkey n).
-  rewrite <- (gen_nonce_dec_enc0 mp (Some u) kalg kkid kkey n draw).
-  unfold cose_Encrypt0Message_Encrypt_nonce_enc, cose_Encrypt0Message_Decrypt_nonce_dec.
-  destruct (oget_bytes (Some u) 5) as [iv| |]; cbn [bind]; [|reflexivity|reflexivity].
-  destruct (oget_bytes (Some u) 6) as [piv| |]; cbn [bind]; [|reflexivity|reflexivity].
-  match goal with |- (do iv0 <- ?X; _) = _ => destruct X as [iv'| |] end; cbn [bind]; [|reflexivity|reflexivity].
-  rewrite go_len_zero. destruct (Nat.eqb (length iv') 0); cbn [oset bind hmap]; reflexivity.
-Qed.
-
-Theorem gen_nonce_encs_alike : cose_EncryptMessage_Encrypt_nonce_enc = cose_Encrypt0Message_Encrypt_nonce_enc.
-Proof. reflexivity. Qed.
 
 (* ---------------------------------------------------------------- what reaches the primitive
    In each of the ten methods there is exactly one assignment to m.toSign / m.toMac / m.toEnc and exactly one call of
